@@ -54,6 +54,19 @@ class ClassModel:
                 self.env[cname] = self._ctor(cname)
         for fname, fn in self.functions.items():
             self.env[fname] = self._function(fn)
+        # `import operator` / `from operator import lt`: pure functions of the standard library, on plain values
+        from .ordabs import PureModule
+
+        for r in self.rels:
+            for n in repo.mod(r).tree.body:
+                if isinstance(n, ast.Import):
+                    for a in n.names:
+                        if a.name in PureModule.SAFE:
+                            self.env.setdefault(a.asname or a.name, PureModule(a.name))
+                elif isinstance(n, ast.ImportFrom) and n.module in PureModule.SAFE and not n.level:
+                    for a in n.names:
+                        if a.name in PureModule.SAFE[n.module]:
+                            self.env.setdefault(a.asname or a.name, PureModule(n.module).get(a.name))
         self.env.update(extra_env or {})
         self._cache: dict[tuple[str, str], Callable | None] = {}
         self.load_tables()
